@@ -26,6 +26,10 @@ REACTIONS = {
                               allowed_interaction_types=["strong", "EM"]),
     # two identical spin-1 particles leaving the SAME node, with equal and with different projections (J = 2: lambda = 0, +-2)
     "chic2_gamma_gamma": dict(initial_state="chi(c2)(1P)", final_state=["gamma", "gamma"], allowed_interaction_types=["EM"]),
+    # two identical spin-1 particles from DIFFERENT nodes and no other identical pair: transitions whose photons have different
+    # projections have pairwise distinct final STATES, yet must be symmetrised (identity of particles is by name, not by projection)
+    "psi2s_gamma_gamma_jpsi": dict(initial_state=("psi(2S)", [+1]), final_state=["gamma", "gamma", "J/psi(1S)"], allowed_intermediate_particles=["chi(c1)(1P)"],
+                                   allowed_interaction_types=["EM"]),
     # a massless spin-1/2 state next to a massive spin-1 state (axis-angle alignment: the flag `no_zero_spin` must follow the ROTATED state)
     "tau_nu_rho": dict(initial_state="tau-", final_state=["nu(tau)", "rho(770)-"], allowed_interaction_types=["weak"]),
     "tau_nu_rho0_pi": dict(initial_state="tau-", final_state=["nu(tau)", "rho(770)0", "pi-"], allowed_intermediate_particles=["a(1)(1260)-"],
